@@ -85,6 +85,62 @@ def _selection_env(fx, it, scores, micro, log):
     return genv, tag_of
 
 
+def _selection_env_semantic(fx, it, scores, micro, log):
+    """The same observations without relying on `apply_mask` being the masking primitive: the repository's own masking runs on a
+    symbol whose data modules all hold the placeholder, and *which* pattern a matrix carries is read off the matrix itself (the
+    set of flipped data modules is compared with the ISO patterns of the symbol kind).  Used when the mask stage was rewritten
+    so that it no longer calls apply_mask."""
+    v = -3 if micro else 1
+    cells = iso.placement(v)
+    pats = [iso.MASKS[iso.MICRO_MASKS[k]] for k in range(4)] if micro else list(iso.MASKS)
+    want = [frozenset(rc for rc in cells if p_(*rc)) for p_ in pats]
+
+    def tag_of(m):
+        try:
+            flipped = frozenset((r, c) for r, c in cells if m[r][c] != 2)
+            odd = [(r, c) for r, c in cells if m[r][c] not in (2, 3)]
+        except (TypeError, IndexError):
+            return None
+        if odd:
+            return ('masked', None, ('not a mask of the placeholder symbol',))
+        if not flipped:
+            return None
+        ks = [k for k, w_ in enumerate(want) if w_ == flipped]
+        return ('masked', ks[0], m[0][0]) if len(ks) == 1 else ('masked', None, ('no single ISO pattern',))
+
+    def evaluate(m, width, height):
+        t = tag_of(m)
+        log.append(('eval', t[1] if t else None, width, height))
+        if t is None or t[1] is None:
+            raise Unknown('a candidate was evaluated unmasked or masked twice')
+        return scores[t[1]]
+    genv = encoder_env(fx.forest, it, evaluate_mask=evaluate, evaluate_micro_mask=evaluate, **reg.model_env())
+    return genv, tag_of
+
+
+def _run_selection(fx, it, scores, micro, requested='<none>'):
+    """find_and_apply_best_mask on a fresh symbol of the kind: (result, tag_of, log, cell (0, 0) of the input, semantic?)."""
+    fn = fx.fn('encoder', 'find_and_apply_best_mask')
+    n = 11 if micro else 21
+    for semantic in (False, True):
+        log = []
+        genv, tag_of = (_selection_env_semantic if semantic else _selection_env)(fx, it, scores, micro, log)
+        m = genv['make_matrix'](n, n)
+        if semantic:
+            genv['add_finder_patterns'](m, n, n)
+            genv['add_alignment_patterns'](m, n, n)
+        c0 = m.grid()[0][0]
+        try:
+            res = FuncVal(fn, genv, it)(m, n, n) if requested == '<none>' else FuncVal(fn, genv, it)(m, n, n, requested)
+        except Unknown:
+            if semantic or [x for x in log if x[0] == 'apply']:
+                raise
+            continue        # apply_mask was never called: the candidates reached the scoring stand-in untagged
+        if semantic or [x for x in log if x[0] == 'apply']:
+            return res, tag_of, log, c0, semantic
+    raise Unknown('unreachable')
+
+
 @rule('C06', 'R2', 16, 'selection: lowest-numbered optimum (min for QR, max for Micro); the matrix returned is masked exactly once, with the returned pattern')
 def r2(fx):
     fn = fx.fn('encoder', 'find_and_apply_best_mask')
@@ -98,14 +154,8 @@ def r2(fx):
     for micro in (False, True):
         n = 11 if micro else 21
         for sc in vectors[micro]:
-            log = []
-            genv, tag_of = _selection_env(fx, it, sc, micro, log)
-            f = FuncVal(fn, genv, it)
-            m = genv['make_matrix'](n, n)
-            grid0 = m.grid()
-            res = f(m, n, n)
-            if not [x for x in log if x[0] == 'apply']:
-                raise Unknown('find_and_apply_best_mask does not mask through apply_mask: the candidates cannot be told apart by its calls')
+            res, tag_of, log, c00, semantic = _run_selection(fx, it, sc, micro)
+            grid0 = [[c00]]
             best = (max if micro else min)(sc)
             want = sc.index(best)
             probs = []
@@ -137,13 +187,7 @@ def r3(fx):
         n = 11 if micro else 21
         for k in range(4 if micro else 8):
             log = []
-            genv, tag_of = _selection_env(fx, it, [0] * 8, micro, log)
-            f = FuncVal(fn, genv, it)
-            m = genv['make_matrix'](n, n)
-            c0 = m.grid()[0][0]
-            res = f(m, n, n, k)
-            if not [x for x in log if x[0] == 'apply']:
-                raise Unknown('find_and_apply_best_mask does not mask through apply_mask: which pattern is applied cannot be read off its calls (decided end to end by R10)')
+            res, tag_of, log, c0, semantic = _run_selection(fx, it, [0] * 8, micro, requested=k)
             t = tag_of(res[1]) if isinstance(res, tuple) and len(res) == 2 and res[1] is not None else None
             ok = isinstance(res, tuple) and res[0] == k and t == ('masked', k, c0) and not [x for x in log if x[0] == 'eval']
             yield ob(f'{"Micro" if micro else "QR"} requested mask {k}', ok, fn, got=(res[0] if isinstance(res, tuple) else res, t, log[:3]),
